@@ -111,6 +111,7 @@ impl LspSession {
             let rec = json!({
                 "late": self.c.notifications[before..].iter().map(|n| n["params"]["uri"].clone()).collect::<Vec<_>>(),
                 "points": self.sched.log().iter().map(|(a, s)| format!("{a}:{s}")).collect::<Vec<_>>(),
+                "arrivals": self.c.arrivals,
             });
             let dir = crate::fw::sup::verif_dir().join("harness/target/run");
             let _ = std::fs::create_dir_all(&dir);
